@@ -1,1 +1,95 @@
-// harness code mounted in serde_avro_fast (see DESIGN.md)
+// Mounted in serde_avro_fast::single_object_encoding — C18
+use super::*;
+use crate::schema::self_referential::SchemaNode;
+use crate::verif::{io::*, spec};
+
+fn long_schema(storage: &mut [SchemaNode<'static>; 1], fp: [u8; 8]) -> Schema {
+	let st: &'static mut [SchemaNode<'static>] = unsafe { std::mem::transmute(&mut storage[..]) };
+	crate::schema::self_referential::verif::schema_over(st, fp)
+}
+
+// @harness props=C18 tier=quick timeout=900
+// @bound schema `long` with EVERY 8-byte fingerprint, every i64 value: output == C3 01 || fingerprint || zig-zag varint
+#[kani::proof]
+#[kani::unwind(13)]
+#[kani::stub(alloc::fmt::format, crate::verif::stub_format)]
+fn c18_to_single_object() {
+	let fp: [u8; 8] = kani::any();
+	let mut storage = [SchemaNode::Long];
+	let schema = long_schema(&mut storage, fp);
+	let v: i64 = kani::any();
+	let mut config = ser::SerializerConfig::new(&schema);
+	let r = to_single_object(&v, FixedBuf::<24>::new(), &mut config);
+	kani::cover!(v == i64::MIN);
+	match &r {
+		Ok(w) => {
+			let out = w.bytes();
+			let mut want = [0u8; 10];
+			let n = spec::put_long(v, &mut want, 0);
+			assert!(out.len() == 10 + n, "c18: wrong total length");
+			assert!(out[0] == 0xC3 && out[1] == 0x01, "c18: marker is not C3 01");
+			let mut i = 0;
+			while i < 8 {
+				assert!(out[2 + i] == fp[i], "c18: fingerprint bytes differ from the schema's fingerprint");
+				i += 1;
+			}
+			i = 0;
+			while i < n {
+				assert!(out[10 + i] == want[i], "c18: payload is not the datum encoding");
+				i += 1;
+			}
+		}
+		Err(_) => assert!(false, "c18: serialization of a conforming value failed"),
+	}
+	std::mem::forget(r);
+	std::mem::forget(config);
+	std::mem::forget(schema);
+}
+
+// @harness props=C18,C11 tier=quick timeout=1200
+// @bound schema `long`, every fingerprint, every input of length 0..=21 (all headers, markers, truncations): slice decode is Ok(v) iff input starts with C3 01 || fingerprint || valid long; reader decode (every uniform refill size 1..=21) agrees with the slice decode
+#[kani::proof]
+#[kani::unwind(23)]
+#[kani::stub(alloc::fmt::format, crate::verif::stub_format)]
+fn c18_from_single_object() {
+	let fp: [u8; 8] = kani::any();
+	let mut storage = [SchemaNode::Long];
+	let schema = long_schema(&mut storage, fp);
+	let data: [u8; 21] = kani::any();
+	let len: usize = kani::any();
+	kani::assume(len <= 21);
+	let s = &data[..len];
+	let chunk: usize = kani::any();
+	kani::assume(chunk >= 1 && chunk <= 21);
+	let header_ok = len >= 10
+		&& data[0] == 0xC3
+		&& data[1] == 0x01
+		&& data[2] == fp[0]
+		&& data[3] == fp[1]
+		&& data[4] == fp[2]
+		&& data[5] == fp[3]
+		&& data[6] == fp[4]
+		&& data[7] == fp[5]
+		&& data[8] == fp[6]
+		&& data[9] == fp[7];
+	let mut d = spec::Dec::new(if len >= 10 { &s[10..] } else { &s[0..0] });
+	let want = if header_ok { d.long() } else { None };
+	let a = from_single_object_slice::<i64>(s, &schema);
+	let b = from_single_object_reader::<_, i64>(Chunked::new(s, chunk), &schema);
+	kani::cover!(a.is_ok() && len == 20);
+	kani::cover!(a.is_err() && len >= 10 && data[0] == 0xC3 && data[1] == 0x01);
+	match (&a, want) {
+		(Ok(v), Some(w)) => assert!(*v == w, "c18: wrong value"),
+		(Ok(_), None) => assert!(false, "c18: message with wrong marker/fingerprint/short header (or invalid payload) was decoded"),
+		(Err(_), Some(_)) => assert!(d.noncanon, "c18: well-formed single-object message rejected"),
+		(Err(_), None) => {}
+	}
+	match (&a, &b) {
+		(Ok(x), Ok(y)) => assert!(*x == *y, "c18: slice and reader decode different values"),
+		(Err(_), Err(_)) => {}
+		_ => assert!(false, "c18: slice and reader disagree on Ok/Err"),
+	}
+	std::mem::forget(a);
+	std::mem::forget(b);
+	std::mem::forget(schema);
+}
